@@ -74,8 +74,10 @@ def full_queue_shutdown(ctx, thorough, protos, mirror):
     drv = ctx.go_build_test("vflow", ["vflow/shutdown_verif_test.go"])
     d = ctx.subdir("c15m" if mirror else "c15")
     from props import c13
-    for proto in protos:
-        out = os.path.join(d, "sd-%s.json" % proto)
+    # every protocol once as the collector runs with a consumer on its producer queue, and (not mirroring) once with that
+    # queue full and nobody reading it - `producer-enabled: false` after the first 1000 messages
+    for proto, mqfull in [(p, 0) for p in protos] + ([] if mirror else [(p, 1) for p in protos]):
+        out = os.path.join(d, "sd-%s%s.json" % (proto, "-mqfull" if mqfull else ""))
         udp = __import__("socket").SOCK_DGRAM
         # decodable datagrams in the backlog: the workers have messages to publish while shutdown() runs
         setup, data = c13.backlog_dgrams(ctx, proto, 120)
@@ -85,8 +87,9 @@ def full_queue_shutdown(ctx, thorough, protos, mirror):
         rc, log, to = ctx.go_run(drv, "TestVerifShutdownFullQueue", timeout=120,
                                  env={"VERIF_OUT": out, "VERIF_PROTO": proto, "VERIF_PORT": e2e.free_port(udp),
                                       "VERIF_MIRROR": 1 if mirror else 0, "VERIF_MIRROR_PORT": e2e.free_port(udp), "VERIF_DGRAMS": dg,
-                                      "VERIF_HOLD_MS": 8000 if thorough else 3500})
-        ctx.count([proto, "full-queue-shutdown", mirror])
+                                      "VERIF_MQ_FULL": mqfull,
+                                      "VERIF_HOLD_MS": 1500 if mqfull else 8000 if thorough else 3500})
+        ctx.count([proto, "full-queue-shutdown", mirror, mqfull])
         if rc != 0 or not os.path.exists(out):
             why = next((l for l in log.split("\n") if l.startswith(("panic:", "fatal error:"))), None)
             if why or "panic" in log:
@@ -100,8 +103,9 @@ def full_queue_shutdown(ctx, thorough, protos, mirror):
         if not r["queue_full"]:
             raise vlib.Infra("shutdown driver: " + r.get("note", "queue not full"))
         if not (r["shutdown_done"] and r["run_returned"]):
-            ctx.violation("%s: after the stalled workers resumed, shutdown did not finish (shutdown returned: %s, receive loop ended: %s)"
-                          % (proto, r["shutdown_done"], r["run_returned"]), {"proto": proto, "result": r}, key=proto + ":shutdown-hangs")
+            ctx.violation("%s: shutdown did not finish%s (shutdown returned: %s, receive loop ended: %s)"
+                          % (proto, " with the workers busy and the producer queue full (nothing reading it)" if mqfull else " after the stalled workers resumed", r["shutdown_done"], r["run_returned"]),
+                          {"proto": proto, "result": r, "producer_queue_full": bool(mqfull)}, key=proto + ":shutdown-hangs")
         elif not r["cache_loads"]:
             ctx.violation("%s: the template cache file written at shutdown does not load" % proto, {"proto": proto}, key=proto + ":cache")
         ctx.traces_validated += 1
